@@ -54,6 +54,35 @@ Theorem C07_checker_sound : forall (p q : list Q) (C X : list (list Q)) (u v : l
 Proof. exact check_plan_sound. Qed.
 Print Assumptions C07_checker_sound.
 
+(* homogeneity: the harness presents every instance scaled to integers (masses times s, costs times k); acceptance of
+   the scaled literals (P, Q0, Ci, Xi, U, V, N) implies the statements for the instance that is meant,
+   p = P/s, q = Q0/s, C = Ci/k, X = Xi/s, with marginal tolerance delta/s and cost unit  unit/(s*k) *)
+Theorem C07_checker_sound_scaled : forall (s k : Q) (P Q0 : list Q) (Ci Xi : list (list Q)) (U V : list Q)
+                                          (N : list (list Q)) (delta eps unit : Q),
+  0 < s -> 0 < k ->
+  check_plan P Q0 Ci Xi U V N delta eps unit = true ->
+  let p := vsc (/ s) P in
+  let q := vsc (/ s) Q0 in
+  let C := msc (/ k) Ci in
+  let X := msc (/ s) Xi in
+  let u := vsc (/ k) U in
+  let v := vsc (/ k) V in
+  let X' := msc (/ s) N in
+  let n := length P in
+  let m := length Q0 in
+  let D := dual_val p q u v in
+  (forall i j, 0 <= entry X i j) /\
+  (forall i, (i < n)%nat -> Qabs (rsum X m i - nth i p 0) <= delta / s) /\
+  (forall j, (j < m)%nat -> Qabs (csum X n j - nth j q 0) <= delta / s) /\
+  feasible p q X' /\
+  dual_feasible n m C u v /\
+  (forall X'', feasible p q X'' -> D <= cost n m X'' C) /\
+  (forall opt, is_opt p q C opt ->
+     D <= opt /\ opt <= cost n m X' C /\
+     Qabs (cost n m X C - opt) <= eps * Qmax (unit / (s * k)) opt).
+Proof. exact check_plan_scaled_sound. Qed.
+Print Assumptions C07_checker_sound_scaled.
+
 (* when a minimiser exists its cost is that optimum, so an accepted plan costs within eps*max(unit, OPT) of it *)
 Theorem C07_accepted_plan_near_optimal : forall p q C X u v X' delta eps unit Xo,
   check_plan p q C X u v X' delta eps unit = true -> optimal_plan p q C Xo ->
@@ -114,5 +143,10 @@ Proof. vm_compute. reflexivity. Qed.
 Example C07_ex_reject_marginal :
   check_plan ex_p ex_q ex_C [[1#4; 1#4; 0]; [0; 0; 1#4]] ex_u ex_v ex_X (1#1000000000) (1#10000000) 1 = false.
 Proof. vm_compute. reflexivity. Qed.
+Example C07_ex_accept_scaled :
+  check_plan [2; 2] [1; 1; 2] [[0; 10; 20]; [20; 10; 10]] [[1; 1; 0]; [0; 0; 2]] [0; 0] [0; 10; 10]
+             [[1; 1; 0]; [0; 0; 2]] (4#1000000000) (1#10000000) 40 = true
+  /\ Forall2 Qeq (vsc (/ 4) [2; 2]) ex_p.
+Proof. split; [vm_compute; reflexivity | repeat constructor]. Qed.
 Example C07_ex_plan : get_transport_plan 0 [6; 5; 4; 3; 2; 1] 2 3 = [[1; 2; 3]; [4; 5; 6]].
 Proof. vm_compute. reflexivity. Qed.
